@@ -7,7 +7,7 @@ import CedarGoProofs.Lemmas.C18Utf8
 import CedarGoProofs.Lemmas.C18Buf
 import CedarGoProofs.Lemmas.C18Inc
 import CedarGoProofs.Lemmas.C18Sim
-namespace CedarGo.Text
+namespace CedarGo.Text.Lx
 
 /-- the unread window of the source buffer -/
 def ScanState.window (s : ScanState) : List UInt8 := slice s.srcBuf s.srcPos s.srcEnd
@@ -552,4 +552,4 @@ theorem scan_eq_incTokens (hb : 4 ≤ bufLen) (rd : Reader) :
     scan bufLen rd = incTokens rd.bytes (rd.final == .fail) :=
   tokenize_sim (scan_sim_inc hb) _ (m := false) (Rel.init rd)
 
-end CedarGo.Text
+end CedarGo.Text.Lx
